@@ -18,7 +18,10 @@
      [op |-> "rechunk", how]    content unchanged; how in {"one", "ones", "split1"}
      [op |-> "concat", axis]    concatenate([x, x], axis)
      [op |-> "stack"]           stack([x, x])  (new leading axis)
-     [op |-> "mapb"]            map_blocks(lambda b: 2*b + 1)  (elementwise per block)        *)
+     [op |-> "mapb"]            map_blocks(lambda b: 2*b + 1)  (elementwise per block)
+     [op |-> "perm", axes]      transpose(x, axes)  (axes: a permutation of 1..ndim, 1-based)
+     [op |-> "concatr", axis, how]  concatenate([x, x.rechunk(how)], axis): the inputs have DIFFERENT
+                                block structures along the axis; the content is that of "concat" *)
 EXTENDS Indexing
 
 Arr(shape, cells) == [shape |-> shape, cells |-> cells]
@@ -36,6 +39,14 @@ Transpose(x) ==
   LET osh == RevSeq(x.shape)
       ts  == Tuples(osh)
   IN Arr(osh, [j \in DOMAIN ts |-> At(x, RevSeq(ts[j]))])
+
+\* transpose(x, p): axis i of the result is axis p[i] of x
+Permute(x, p) ==
+  LET osh == [i \in DOMAIN p |-> x.shape[p[i]]]
+      ts  == Tuples(osh)
+      inv(t) == [a \in DOMAIN p |-> t[CHOOSE i \in DOMAIN p : p[i] = a]]
+  IN Arr(osh, [j \in DOMAIN ts |-> At(x, inv(ts[j]))])
+IsPerm(p, n) == Len(p) = n /\ {p[i] : i \in DOMAIN p} = 1..n
 
 Slice(x, comps) ==
   LET r == Result(x.shape, comps)
@@ -84,7 +95,8 @@ Applicable(x, o) ==
     [] o.op \in {"sum"} -> o.axis <= Len(x.shape)
     [] o.op \in {"max", "min"} -> o.axis <= Len(x.shape) /\ Size(x.shape) > 0
                                   /\ (o.axis = 0 \/ x.shape[o.axis] > 0)
-    [] o.op = "concat" -> o.axis \in 1..Len(x.shape)
+    [] o.op \in {"concat", "concatr"} -> o.axis \in 1..Len(x.shape)
+    [] o.op = "perm"   -> IsPerm(o.axes, Len(x.shape))
     [] o.op = "addrev" -> Len(x.shape) >= 1
     [] OTHER -> TRUE
 
@@ -99,7 +111,8 @@ Apply(x, o) ==
     [] o.op \in {"sum", "max", "min"} -> Reduce(x, o.op, o.axis)
     [] o.op = "T"       -> Transpose(x)
     [] o.op = "rechunk" -> x
-    [] o.op = "concat"  -> Concat2(x, o.axis)
+    [] o.op \in {"concat", "concatr"} -> Concat2(x, o.axis)
+    [] o.op = "perm"    -> Permute(x, o.axes)
     [] o.op = "stack"   -> Stack2(x)
 
 RECURSIVE Run(_, _)
